@@ -26,6 +26,7 @@ warnings.simplefilter("ignore")
 import unified_planning as up
 import unified_planning.io.anml_writer as anml_writer_mod
 from unified_planning.engines.sequential_simulator import UPSequentialSimulator
+from unified_planning.exceptions import UPUsageError
 from unified_planning.io import ANMLReader, ANMLWriter
 from unified_planning.model import (DurativeAction, Fluent, InstantaneousAction, Problem, TimeInterval, Timepoint,
                                     TimepointKind, Timing)
@@ -41,9 +42,15 @@ from upx import enc_expr, enc_ty, q2s
 ID = "C19"
 GEN = []
 CORR_NAME = "writer-tokens+reader-result"
+EXTRA_PROPS = ["UPVerif.Props.C19Types"]
 RULE = ("problems of the ANML fragment: the classical/numeric generator of harness/upp.py (quantifiers, conditional / universal / "
-        "increase / decrease effects, bounded int and real types incl. negative and fractional bounds, defaults, "
-        "state invariants) and a temporal generator (durative actions with fixed / open / closed duration bounds, conditions over "
+        "increase / decrease effects, defaults, state invariants) whose numeric types are DRAWN PER PROBLEM in 3 of 4 cases (for the "
+        "value types of the fluents, the integer parameter of a fluent, the integer / real parameters of the actions: 12 shapes per "
+        "kind -- upper bound 0, lower bound 0, [0,0], equal bounds, one-sided with and without 0, negative-only, positive-only, 0 "
+        "inside, bounds of up to 19 digits, and for the reals fractional bounds around 0 and large denominators -- with initial values, "
+        "assigned constants and increments chosen at and next to the bounds), type-table problems (about 9 numeric declarations each, the "
+        "shapes dealt from a shuffled deck so that every run sends every shape through the real reader, plus probe actions that "
+        "assign a value just across / exactly on a bound) and a temporal generator (durative actions with fixed / open / closed duration bounds, conditions over "
         "point / open / closed intervals with delays, effects at delayed timings, timed effects and goals), both renamed with "
         "adversarial identifiers (keywords, keyword prefixes, leading digits, symbols, clashes after mangling); plus every bundled "
         "example problem the ANML writer supports.  Non-trivial = writer and reader both succeed and the problem has at least one "
@@ -61,8 +68,12 @@ ASSUMPTIONS = [
     "timed effects at global start + 0 are outside the fragment (the writer prints them like initial values)",
     "effects whose condition is not TRUE but simplifies to TRUE or FALSE, or whose forall variables disappear under simplification, are "
     "outside the fragment (the writer decides `when`/`forall` on the unsimplified effect and prints the simplified one)",
-    "fluent signatures and quantified variables range over user types; no metrics, no trajectory constraints other than state invariants "
-    "(the ANML writer prints neither)",
+    "fluent parameters are of user types or of a bounded integer type with at most 4 values; quantified variables range over user types; "
+    "no metrics, no trajectory constraints other than state invariants (the ANML writer prints neither)",
+    "equivalence of the re-read problem includes its declarations: the value type and the parameter types of every fluent and the "
+    "parameter types of every action are compared as values (kind, lower bound, upper bound; absent = unbounded), because a bounded "
+    "type is a state invariant of the simulator and decides which arguments an action accepts; behaviourally, arguments at, next to "
+    "and just outside the bounds of a numeric parameter are tried on both problems and must be accepted / refused alike",
 ]
 MODELLED = ["modelled by hand, tied by correspondence: ANMLWriter._write_problem, ConverterToANMLString.walk_*, _convert_effect, "
             "_convert_anml_timing/_interval, the numeric type names of _get_anml_name; ANMLReader._parse_problem and the functions it calls "
@@ -673,13 +684,214 @@ def adversarial_names(rng, e, rate):
     return rename_sexp(e, m)
 
 
+# ------------------------------------------------------------------------------------------------
+# numeric type bounds, drawn per case
+# ------------------------------------------------------------------------------------------------
+# The bounds of an integer / real type are printed by _get_anml_name and read back by _parse_type_reference; what can go
+# wrong there depends on the VALUE and the POSITION of a bound (0 is falsy, a sign, a fraction, `infinity` on one side only,
+# many digits), so every case draws its own table of numeric types instead of the fixed one of harness/upp.py
+# (int[0,4], int[-2,3], real[0,5/2], unbounded).  A shape is a named way to draw one (lower, upper) pair.
+
+def _ch(r, xs):
+    return r.choice(xs)
+
+
+F = Fraction
+INT_SHAPES = OrderedDict([
+    ("ub0", lambda r: (-_ch(r, [1, 2, 3, 7]), 0)),                       # upper bound exactly 0
+    ("lb0", lambda r: (0, _ch(r, [1, 2, 4, 9]))),                        # lower bound exactly 0
+    ("both0", lambda r: (0, 0)),
+    ("eq", lambda r: (lambda k: (k, k))(_ch(r, [-3, -1, 1, 2, 17]))),    # equal bounds, not 0
+    ("ub-only0", lambda r: (None, 0)),
+    ("lb-only0", lambda r: (0, None)),
+    ("ub-only", lambda r: (None, _ch(r, [-4, -1, 1, 3, 250]))),
+    ("lb-only", lambda r: (_ch(r, [-250, -2, -1, 1, 5]), None)),
+    ("neg", lambda r: (lambda a, b: (-a - b, -a))(_ch(r, [1, 2, 5]), _ch(r, [1, 3, 10]))),      # negative-only range
+    ("pos", lambda r: (lambda a, b: (a, a + b))(_ch(r, [1, 2, 5]), _ch(r, [1, 3, 10]))),        # positive-only range
+    ("span0", lambda r: (-_ch(r, [1, 2, 3]), _ch(r, [1, 3, 4]))),                              # 0 strictly inside
+    ("large", lambda r: _ch(r, [(-1000, 1000000), (10, 123456789012), (-99999999999, -100), (0, 10 ** 12), (-10 ** 9, 0),
+                                (-2 ** 63, 2 ** 63 - 1)])),
+])
+REAL_SHAPES = OrderedDict([
+    ("ub0", lambda r: (-_ch(r, [F(1, 2), F(1), F(5, 2), F(7, 3)]), F(0))),
+    ("lb0", lambda r: (F(0), _ch(r, [F(1, 2), F(1), F(5, 2), F(7, 3)]))),
+    ("both0", lambda r: (F(0), F(0))),
+    ("eq", lambda r: (lambda q: (q, q))(_ch(r, [F(-3, 2), F(1, 3), F(2), F(-1)]))),
+    ("ub-only0", lambda r: (None, F(0))),
+    ("lb-only0", lambda r: (F(0), None)),
+    ("ub-only", lambda r: (None, _ch(r, [F(-7, 2), F(-1), F(1, 10), F(3), F(22, 7)]))),
+    ("lb-only", lambda r: (_ch(r, [F(-22, 7), F(-1), F(-1, 10), F(1, 2), F(4)]), None)),
+    ("neg", lambda r: _ch(r, [(F(-7, 2), F(-1, 4)), (F(-3), F(-1)), (F(-1, 3), F(-1, 10))])),
+    ("pos", lambda r: _ch(r, [(F(1, 2), F(5, 2)), (F(1, 10), F(3, 10)), (F(1), F(4))])),
+    ("span0", lambda r: _ch(r, [(F(-1, 2), F(1, 2)), (F(-1, 10), F(1, 3)), (F(-2), F(5, 2)), (F(-1, 1000), F(1, 1000))])),
+    ("large", lambda r: _ch(r, [(F(-1000001, 1000), F(10 ** 9)), (F(1, 123456789), F(5)), (F(0), F(2 * 10 ** 12 + 1, 2)),
+                                (F(-10 ** 15, 7), F(0))])),
+])
+LEGACY_NUM_TYPES = [["int", "_", "_"], ["int", "0", "4"], ["int", "-2", "3"], ["int", "0", "10"], ["int", "0", "3"],
+                    ["real", "_", "_"], ["real", "0", "5/2"]]
+
+
+def bq(x):
+    return "_" if x is None else q2s(Fraction(x))
+
+
+def mk_num_type(kind, lo, hi):
+    return [kind, bq(lo), bq(hi)]
+
+
+def draw_type(r, kind, shapes=None):
+    """a numeric type of the wire format with freshly drawn bounds; `shapes` restricts the shape names"""
+    table = INT_SHAPES if kind == "int" else REAL_SHAPES
+    name = r.choice(list(shapes) if shapes else list(table))
+    lo, hi = table[name](r)
+    return mk_num_type(kind, lo, hi)
+
+
+def narrow(r, ty, width=3):
+    """the bounded numeric type `ty` cut down to at most width + 1 integers, keeping one of its two bounds"""
+    lo, hi = bounds_of(ty)
+    if hi - lo <= width:
+        return ty
+    return mk_num_type(ty[0], lo, lo + width) if r.random() < 0.5 else mk_num_type(ty[0], hi - width, hi)
+
+
+def bounds_of(ty):
+    return (None if ty[1] == "_" else Fraction(ty[1])), (None if ty[2] == "_" else Fraction(ty[2]))
+
+
+def inside(q, ty):
+    lo, hi = bounds_of(ty)
+    return (lo is None or lo <= q) and (hi is None or q <= hi) and (ty[0] == "real" or Fraction(q).denominator == 1)
+
+
+def const_of(q):
+    q = Fraction(q)
+    return ["i", str(q.numerator)] if q.denominator == 1 else ["r", q2s(q)]
+
+
+def values_in(ty):
+    """constants of the numeric type `ty`, the ones at and next to its bounds first (a wrong bound only shows at the edge)"""
+    lo, hi = bounds_of(ty)
+    step = Fraction(1) if ty[0] == "int" else Fraction(1, 2)
+    if lo is not None and hi is not None:
+        c = [lo, hi, lo + step, hi - step, (lo + hi) / 2, Fraction(0)]
+    elif lo is not None:
+        c = [lo, lo + step, lo + 3]
+    elif hi is not None:
+        c = [hi, hi - step, hi - 3]
+    else:
+        c = [Fraction(0), Fraction(1), Fraction(-1), Fraction(2), Fraction(3)] + ([Fraction(1, 2), Fraction(3, 10)] if ty[0] == "real" else [])
+    if ty[0] == "int":
+        c = [Fraction(q.numerator // q.denominator) for q in c]
+    out = []
+    for q in c:
+        if inside(q, ty) and q not in out:
+            out.append(q)
+    return out
+
+
+def shape_tags(ty):
+    """which of the bound shapes a numeric wire-format type exhibits (for the measured distribution)"""
+    lo, hi = bounds_of(ty)
+    k = ty[0]
+    t = []
+    if hi is not None and hi == 0:
+        t.append(f"{k}-upper-bound-0")
+    if lo is not None and lo == 0:
+        t.append(f"{k}-lower-bound-0")
+    if (lo is None) != (hi is None):
+        t.append(f"{k}-one-sided")
+    if lo is not None and lo == hi:
+        t.append(f"{k}-equal-bounds")
+    if hi is not None and hi < 0:
+        t.append(f"{k}-negative-only")
+    if lo is not None and lo > 0:
+        t.append(f"{k}-positive-only")
+    if any(b is not None and abs(b) >= 1000 for b in (lo, hi)):
+        t.append(f"{k}-large-bound")
+    if any(b is not None and b.denominator != 1 for b in (lo, hi)):
+        t.append(f"{k}-fractional-bound")
+    if any(b is not None and b.denominator != 1 and abs(b) < 1 for b in (lo, hi)):
+        t.append(f"{k}-fraction-near-0")
+    return t
+
+
+def numeric_types_of(ps):
+    """(where, type) for every numeric type occurrence in the declarations of a wire-format problem"""
+    out = []
+    isnum = lambda t: isinstance(t, list) and t and t[0] in ("int", "real")
+    for ref, _pn in get(ps, "fluents"):
+        if isnum(ref[1]):
+            out.append(("fluent-type", ref[1]))
+        for t in ref[2]:
+            if isnum(t):
+                out.append(("fluent-parameter", t))
+    for a in get(ps, "actions"):
+        for _n, t in a[2]:
+            if isnum(t):
+                out.append(("action-parameter", t))
+    return out
+
+
+class VarGen(upp.ProblemGen):
+    """upp.ProblemGen whose numeric fluent types are drawn per problem (upp's own table stays the default: nothing is drawn until
+    draw_types() is called) and whose initial values / assigned constants / increments are chosen inside the drawn bounds, so that
+    most problems are accepted by the library (it rejects a constant outside the type at construction)."""
+
+    def retype(self, name, ty):
+        self.FL[name][1] = ty     # the ExprGen tables hold the same list object
+
+    def draw_types(self):
+        r = self.rng
+        self.retype("xb", draw_type(r, "int"))
+        self.retype("xq", draw_type(r, "int"))
+        self.retype("zb", draw_type(r, "real"))
+        if r.random() < 0.3:
+            self.retype("x", draw_type(r, "int", ["ub-only0", "lb-only0", "ub-only", "lb-only", "large"]))
+        if r.random() < 0.3:
+            self.retype("z", draw_type(r, "real", ["ub-only0", "lb-only0", "ub-only", "lb-only", "large"]))
+        if "k" in self.FL:       # read by the durations: never negative
+            self.retype("k", draw_type(r, "int", ["lb0", "both0", "lb-only0", "pos", "lb0", "lb0"]))
+
+    def const_for(self, ref):
+        ty = ref[1]
+        if isinstance(ty, list) and ty[0] in ("int", "real"):
+            vs = values_in(ty)
+            return const_of(self.rng.choice(vs[:2] + vs))
+        return super().const_for(ref)
+
+    def value_for(self, name, params, scope, depth=1):
+        ty = self.FL[name][1]
+        if isinstance(ty, list) and ty[0] in ("int", "real") and ty not in LEGACY_NUM_TYPES[:1] + LEGACY_NUM_TYPES[5:6]:
+            if self.rng.random() < 0.7:
+                vs = values_in(ty)
+                return const_of(self.rng.choice(vs[:2] + vs))
+            return self.num(params, scope, depth, real_ok=ty[0] == "real")
+        return super().value_for(name, params, scope, depth)
+
+    def effect(self, params):
+        e = super().effect(params)
+        ty = e[2][1][1]
+        if e[1] != "assign" and isinstance(ty, list) and ty[0] in ("int", "real") and e[3][0] in ("i", "r") \
+                and not inside(Fraction(e[3][1]), ty):
+            # `f += c` is rejected unless c itself lies in f's type: take such a c if there is a positive one,
+            # else write the same step as an assignment (accepted whenever the shifted interval still meets the type)
+            pos = [q for q in values_in(ty) if q > 0]
+            if pos:
+                e[3] = const_of(self.rng.choice(pos))
+            else:
+                e = ["eff", "assign", e[2], ["plus" if e[1] == "increase" else "minus", e[2], e[3]], e[4], e[5]]
+        return e
+
+
 class Gen19:
-    def __init__(self, rng):
+    def __init__(self, rng, vary=0.75):
         self.rng = rng
+        self.vary = vary      # share of the problems whose numeric type bounds are drawn (the others keep upp.py's table)
 
     def base(self, temporal):
         r = self.rng
-        g = upp.ProblemGen(r, undefined=False, invariants=True, metrics=False, quantifiers=True, big=r.random() < 0.15)
+        g = VarGen(r, undefined=False, invariants=True, metrics=False, quantifiers=True, big=r.random() < 0.15)
         g.eg.empty_type = False
         U = lambda n: ["user", n]
         # two fluents no effect ever writes: printed as `constant`
@@ -687,6 +899,14 @@ class Gen19:
         g.FL["conn"] = ["conn", "bool", [U("T"), U("S")]]
         g.eg.bool_fl = g.eg.bool_fl + [g.FL["conn"]]
         g.eg.int_fl = g.eg.int_fl + [g.FL["k"]]
+        varied = r.random() < self.vary
+        if varied:               # the bounds of the numeric types are drawn for this problem (else: the fixed table of upp.py)
+            g.draw_types()
+        cq = None
+        if varied and r.random() < 0.5:
+            # a fluent whose PARAMETER is of a bounded integer type (few values: every ground instance gets an initial value)
+            cq = ["cq", r.choice(["bool", draw_type(r, "int")]),
+                  [narrow(r, draw_type(r, "int", ["ub0", "lb0", "both0", "eq", "neg", "pos", "span0"]))]]
         ps = g.problem()
         fluents, defaults = [], []
         for ref, d in get(ps, "fluents")[0:]:
@@ -698,15 +918,41 @@ class Gen19:
         out = {"types": upp.get(ps, "types"), "fluents": fluents, "objects": upp.get(ps, "objects"), "init": upp.get(ps, "init"),
                "defaults": defaults, "actions": acts, "timed-effects": [], "goals": upp.get(ps, "goals"), "timed-goals": [],
                "invariants": [t[1] for t in upp.get(ps, "traj")]}
-        if r.random() < 0.3:     # action parameters of Boolean / bounded integer type
+        if r.random() < (0.6 if varied else 0.3):     # action parameters of Boolean / integer / real type
             for a in acts:
                 if r.random() < 0.5:
                     a[2].append(["pb", "bool"])
                     a[3].append(r.choice([["p", "pb", "bool"], ["iff", ["p", "pb", "bool"], ["fl", g.FL["b0"]]]]))
                 if r.random() < 0.5:
-                    t = ["int", "0", "3"]
+                    t = draw_type(r, "int") if varied else ["int", "0", "3"]
                     a[2].append(["pn", t])
                     a[3].append(["le", ["p", "pn", t], ["fl", g.FL["xb"]]])
+                if varied and r.random() < 0.4:
+                    t = draw_type(r, "real")
+                    a[2].append(["pq", t])
+                    a[3].append(["lt", ["fl", g.FL["zb"]], ["plus", ["p", "pq", t], ["i", "1"]]])
+        if cq is not None:       # the fluent with the integer parameter, read and written through constants and a parameter
+            t = cq[2][0]
+            dflt = const_of(r.choice(values_in(cq[1]))) if cq[1] != "bool" else ["b", r.choice("TF")]
+            out["fluents"].append([cq, [r.choice(["n", "q0", "acq"])]])
+            if r.random() < 0.5:
+                out["defaults"].append(["cq", dflt])
+            else:
+                lo, hi = bounds_of(t)
+                for i in range(int(lo), int(hi) + 1):
+                    v = const_of(r.choice(values_in(cq[1]))) if cq[1] != "bool" else ["b", r.choice("TF")]
+                    out["init"].append([["fl", cq, const_of(i)], v])
+            for a in acts:
+                arg = const_of(r.choice(values_in(t)))
+                if r.random() < 0.6:
+                    a[2].append(["pc", t])
+                    arg = ["p", "pc", t]
+                if cq[1] == "bool":
+                    a[3].append(["fl", cq, const_of(r.choice(values_in(t)))])
+                    a[4].append(["eff", "assign", ["fl", cq, arg], ["b", r.choice("TF")], ["b", "T"], []])
+                else:
+                    a[3].append(["le", ["fl", cq, const_of(r.choice(values_in(t)))], const_of(values_in(cq[1])[-1])])
+                    a[4].append(["eff", "assign", ["fl", cq, arg], dflt, ["b", "T"], []])
         if temporal:
             self.temporal(g, out)
         return ["aproblem"] + [[k] + v for k, v in out.items()]
@@ -756,6 +1002,86 @@ class Gen19:
             out["timed-effects"].append([["gs", r.choice(["1", "5", "7/2", "12"])], g.effect([])])
         for _ in range(r.choice([0, 0, 1, 2])):
             out["timed-goals"].append([self.interval(False), g.cond([], (), 1)])
+
+
+class ShapeDeck:
+    """deals the shapes of a table in shuffled rounds: every shape is used once before any is used twice"""
+
+    def __init__(self, rng, kind):
+        self.rng, self.kind, self.left = rng, kind, []
+        self.table = INT_SHAPES if kind == "int" else REAL_SHAPES
+
+    def draw(self, only=None):
+        if only is not None:
+            pool = [n for n in self.left if n in only]
+            if not pool:
+                name = self.rng.choice(sorted(only))
+            else:
+                name = pool[0]
+                self.left.remove(name)
+        else:
+            if not self.left:
+                self.left = list(self.table)
+                self.rng.shuffle(self.left)
+            name = self.left.pop(0)
+        lo, hi = self.table[name](self.rng)
+        return mk_num_type(self.kind, lo, hi)
+
+
+BOUNDED_SHAPES = ["ub0", "lb0", "both0", "eq", "neg", "pos", "span0"]
+
+
+def type_table_problem(r, ints, reals):
+    """A declaration-heavy, expression-light problem (the real reader spends its time on expressions): numeric fluents, a fluent
+    with an integer parameter and an action with numeric parameters whose types come from the decks, every fluent initialised at
+    one of its bounds, and `probe` actions that try to move a fluent just across / exactly onto a bound (bounded types are state
+    invariants of the simulator: the first must stay inapplicable, the second applicable, after the round trip as well)."""
+    fl, init, acts = [], [], []
+
+    def add(name, ty, sig=(), pnames=()):
+        ref = [name, ty, list(sig)]
+        fl.append([ref, list(pnames)])
+        return ref
+    nums = [add(f"n{i}", ints.draw()) for i in range(2)] + [add(f"r{i}", reals.draw()) for i in range(2)]
+    for ref in nums:
+        vs = values_in(ref[1])
+        init.append([["fl", ref], const_of(r.choice(vs[:2]))])
+    # probes: src holds a value next to a bound of dst; `dst := src`
+    step = {"int": Fraction(1), "real": Fraction(1, 2)}
+    order = list(nums)
+    r.shuffle(order)
+    n_probe = 0
+    for ref in order:
+        lo, hi = bounds_of(ref[1])
+        opts = []
+        if hi is not None:
+            opts += [("over", hi + step[ref[1][0]]), ("top", hi)]
+        if lo is not None:
+            opts += [("under", lo - step[ref[1][0]]), ("bottom", lo)]
+        if not opts or n_probe >= 2:
+            continue
+        what, val = r.choice(opts[:1] + opts[2:3] + opts)       # the two outside values twice as often
+        src = add(f"s{n_probe}", [ref[1][0], "_", "_"])
+        init.append([["fl", src], const_of(val)])
+        acts.append(["inst", f"{what}{n_probe}", [], ["pre"], ["effs", ["eff", "assign", ["fl", ref], ["fl", src], ["b", "T"], []]]])
+        n_probe += 1
+    # a fluent with an integer parameter
+    pt = narrow(r, ints.draw(only=BOUNDED_SHAPES), 2)
+    cq = add("cq", r.choice(["bool", ints.draw()]), [pt], ["n"])
+    lo, hi = bounds_of(pt)
+    for i in range(int(lo), int(hi) + 1):
+        init.append([["fl", cq, const_of(i)], ["b", r.choice("TF")] if cq[1] == "bool" else const_of(r.choice(values_in(cq[1])[:2]))])
+    # an action with numeric parameters: they index cq and are copied into unbounded sinks
+    ti, tr = ints.draw(), reals.draw()
+    xs, zs = add("xs", ["int", "_", "_"]), add("zs", ["real", "_", "_"])
+    init += [[["fl", xs], ["i", "0"]], [["fl", zs], ["i", "0"]]]
+    effs = [["eff", "assign", ["fl", xs], ["p", "pi", ti], ["b", "T"], []], ["eff", "assign", ["fl", zs], ["p", "pr", tr], ["b", "T"], []]]
+    v = ["b", r.choice("TF")] if cq[1] == "bool" else const_of(r.choice(values_in(cq[1])))
+    effs.append(["eff", "assign", ["fl", cq, ["p", "pc", pt]], v, ["b", "T"], []])
+    acts.append(["inst", "setp", [["pi", ti], ["pr", tr], ["pc", pt]], ["pre"], ["effs"] + effs])
+    goals = [["le", ["fl", xs], ["i", "0"]]] if r.random() < 0.5 else []
+    return ["aproblem", ["types"], ["fluents"] + fl, ["objects"], ["init"] + init, ["defaults"], ["actions"] + acts,
+            ["timed-effects"], ["goals"] + goals, ["timed-goals"], ["invariants"]]
 
 
 def all_effects(P):
@@ -884,19 +1210,14 @@ def prune(rng, ps):
     return ["aproblem"] + [[k] + v for k, v in secs.items()]
 
 
-COUNTS = {"quick": {"examples": 5, "mini": 24, "medium": 3, "w": 250},
-          "thorough": {"examples": 10 ** 6, "mini": 60, "medium": 6, "w": 2500}}
+COUNTS = {"quick": {"examples": 5, "types": 6, "mini": 18, "medium": 3, "w": 250},
+          "thorough": {"examples": 10 ** 6, "types": 24, "mini": 54, "medium": 6, "w": 2500}}
 
 
 def cases(rng, tier):
     """`rt` cases run writer and reader (the real reader needs seconds for a page of ANML: few, small cases);
     `w` cases run the writer only (many, full size)"""
     n = COUNTS[tier]
-    ex = example_cases()
-    if len(ex) > n["examples"]:     # quick tier: a seed-dependent sample of the smaller examples
-        ex = rng.sample(sorted(ex, key=lambda c: len(sexp.dumps(c)))[:len(ex) // 2], n["examples"])
-    for c in ex:
-        yield c
     g = Gen19(rng)
 
     def fresh(temporal, small):
@@ -908,12 +1229,29 @@ def cases(rng, tier):
             if _buildable(ps) is not None:
                 return ps
         raise RuntimeError("generator cannot build a problem")
-    for i in range(n["mini"]):
-        yield ["rt", fresh(rng.random() < 0.45, True)]
-    for i in range(n["medium"]):
-        yield ["rt", fresh(rng.random() < 0.45, False)]
+    # the order is by value per second: run_check stops running cases when the tier's time budget is spent (a loaded machine)
+    ints, reals = ShapeDeck(rng, "int"), ShapeDeck(rng, "real")
+    for i in range(n["types"]):      # every bound shape, in every position, goes through the real reader in every run
+        for _ in range(50):
+            ps = type_table_problem(rng, ints, reals)
+            if rng.random() < 0.3:
+                ps = adversarial_names(rng, ps, 0.4)
+            if _buildable(ps) is not None:
+                break
+        else:
+            raise RuntimeError("generator cannot build a type-table problem")
+        yield ["rt", ps]
     for i in range(n["w"]):
         yield ["w", fresh(rng.random() < 0.45, rng.random() < 0.3)]
+    for i in range(n["mini"]):
+        yield ["rt", fresh(rng.random() < 0.45, True)]
+    ex = example_cases()
+    if len(ex) > n["examples"]:     # quick tier: a seed-dependent sample of the smaller examples
+        ex = rng.sample(sorted(ex, key=lambda c: len(sexp.dumps(c)))[:len(ex) // 2], n["examples"])
+    for c in ex:
+        yield c
+    for i in range(n["medium"]):
+        yield ["rt", fresh(rng.random() < 0.45, False)]
 
 
 def nontrivial(payload, ans):
@@ -943,6 +1281,16 @@ def stats(payload, ans):
         t.append("renamed-local")
     if "constant" in (r.get("text") or ""):
         t.append("constant-fluent")
+    nts = numeric_types_of(payload[1])
+    for where in ("fluent-parameter", "action-parameter"):
+        if any(w == where for w, _ in nts):
+            t.append("numeric-" + where)
+    if any(ty not in LEGACY_NUM_TYPES for _, ty in nts):
+        t.append("drawn-type-bounds")
+    for tag in sorted(set(x for _, ty in nts for x in shape_tags(ty))):
+        t.append(tag)
+        if t[0] == "reread":       # the shapes that went through the real READER (the writer-only cases stop at the text)
+            t.append("reread/" + tag)
     return t
 
 
@@ -979,6 +1327,10 @@ class Side:
             return None
         try:
             return self.sim.apply(st, a, objs)
+        except UPUsageError as e:
+            if "not compatible with the given action's parameters" in " ".join(str(x) for x in e.args):
+                return ("refused-arguments",)
+            return ("err", type(e).__name__)
         except Exception as e:
             return ("err", type(e).__name__)
 
@@ -999,8 +1351,18 @@ def structure_diff(P, Q, ren):
     ro = lambda n: ren["object"].get(n, n)
     rf = lambda n: ren["fluent"].get(n, n)
 
-    def tyname(t):
-        return ("user", rt(t.name)) if t.is_user_type() else ("builtin", str(t))
+    def tyname(t, r=rt):
+        """a type as a value: kind and, for the numeric types, BOTH bounds (exact fractions in lowest terms; -inf / inf = unbounded)"""
+        if t.is_user_type():
+            return ("user", r(t.name))
+        if t.is_int_type() or t.is_real_type():
+            return ("int" if t.is_int_type() else "real", "-inf" if t.lower_bound is None else q2s(Fraction(t.lower_bound)),
+                    "inf" if t.upper_bound is None else q2s(Fraction(t.upper_bound)))
+        return ("builtin", str(t))
+    same = lambda n: n
+
+    def show(x):
+        return "(" + " ".join(show(y) for y in x) + ")" if isinstance(x, tuple) else str(x)
     tp = sorted((rt(t.name), rt(t.father.name) if t.father else None) for t in P.user_types)
     tq = sorted((t.name, t.father.name if t.father else None) for t in Q.user_types)
     if tp != tq:
@@ -1010,10 +1372,11 @@ def structure_diff(P, Q, ren):
     if op != oq:
         return f"objects differ: {op} vs {oq}"
     fp = sorted((rf(f.name), tyname(f.type), tuple(tyname(p.type) for p in f.signature)) for f in P.fluents)
-    fq = sorted((f.name, ("user", f.type.name) if f.type.is_user_type() else ("builtin", str(f.type)),
-                 tuple(("user", p.type.name) if p.type.is_user_type() else ("builtin", str(p.type)) for p in f.signature)) for f in Q.fluents)
+    fq = sorted((f.name, tyname(f.type, same), tuple(tyname(p.type, same) for p in f.signature)) for f in Q.fluents)
     if fp != fq:
-        return f"fluents differ: {fp} vs {fq}"
+        dq = {x[0]: x for x in fq}
+        x = [x for x in fp if x not in fq][:1] or [x for x in fq if x not in fp][:1]
+        return f"fluents differ (name, type, parameter types): {show(x[0]) if x[0] in fp else 'absent'} vs {show(dq.get(x[0][0], 'absent'))}"
 
     def keyP(fe):
         return (rf(fe.fluent().name),) + tuple(ro(x.object().name) if x.is_object_exp() else str(x) for x in fe.args)
@@ -1032,14 +1395,44 @@ def structure_diff(P, Q, ren):
         d = sorted(k for k in set(ip) | set(iq) if ip.get(k, "absent") != iq.get(k, "absent"))
         return f"initial state differs at {d[0]}: {ip.get(d[0], 'absent')} vs {iq.get(d[0], 'absent')}"
     ap = sorted((ren["action"].get(a.name, a.name), type(a).__name__, tuple(tyname(p.type) for p in a.parameters)) for a in P.actions)
-    aq = sorted((a.name, type(a).__name__, tuple(("user", p.type.name) if p.type.is_user_type() else ("builtin", str(p.type))
-                                                   for p in a.parameters)) for a in Q.actions)
+    aq = sorted((a.name, type(a).__name__, tuple(tyname(p.type, same) for p in a.parameters)) for a in Q.actions)
     if ap != aq:
-        return f"actions differ: {ap} vs {aq}"
+        dq = {x[0]: x for x in aq}
+        x = [x for x in ap if x not in aq][:1] or [x for x in aq if x not in ap][:1]
+        return f"actions differ (name, kind, parameter types): {show(x[0]) if x[0] in ap else 'absent'} vs {show(dq.get(x[0][0], 'absent'))}"
     return None
 
 
-def ground_actions(P, cap=40):
+def param_values(t, outside):
+    """argument values tried for a parameter of the numeric type t: the values at and next to each bound and, if `outside`, the
+    nearest values beyond them (both problems must refuse those: the type of a parameter is part of the action's applicability)"""
+    isint = t.is_int_type()
+    step = 1 if isint else Fraction(1, 2)
+    lo, hi = t.lower_bound, t.upper_bound
+    vals = []
+    if lo is not None:
+        vals += [lo, lo + step] + ([lo - step] if outside else [])
+    if hi is not None:
+        vals += [hi, hi - step] + ([hi + step] if outside else [])
+    if lo is None and hi is None:
+        vals += [0, 1, -1]
+    elif lo is None:
+        vals += [hi - 5]
+    elif hi is None:
+        vals += [lo + 5]
+    else:
+        m = (Fraction(lo) + Fraction(hi)) / 2
+        vals += [m.numerator // m.denominator if isint else m]
+    out = []
+    for v in vals:
+        if not outside and ((lo is not None and v < lo) or (hi is not None and v > hi)):
+            continue
+        if v not in out:
+            out.append(v)
+    return out
+
+
+def ground_actions(P, cap=40, outside=True):
     out = []
     for a in P.actions:
         doms = []
@@ -1048,18 +1441,20 @@ def ground_actions(P, cap=40):
                 doms.append(list(P.objects(p.type)))
             elif p.type.is_bool_type():
                 doms.append([True, False])
-            elif p.type.is_int_type() and p.type.lower_bound is not None and p.type.upper_bound is not None:
-                doms.append(list(range(p.type.lower_bound, min(p.type.upper_bound, p.type.lower_bound + 3) + 1)))
+            elif p.type.is_int_type() or p.type.is_real_type():
+                doms.append(param_values(p.type, outside))
             else:
                 doms = None
                 break
         if doms is None:
             continue
-        for combo in product(*doms):
+        combos = list(product(*doms))
+        per = max(4, cap // max(1, len(P.actions)))     # per action: one with many parameters does not crowd out the others
+        if len(combos) > per:
+            step = len(combos) / per
+            combos = [combos[int(i * step)] for i in range(per)]
+        for combo in combos:
             out.append((a, combo))
-    if len(out) > cap:
-        step = len(out) / cap
-        out = [out[int(i * step)] for i in range(cap)]
     return out
 
 
@@ -1104,10 +1499,18 @@ def bisim_diff(P, Q, ren, depth, width=5):
     keyP = lambda fe: (rf(fe.fluent().name),) + tuple(ro(x.object().name) if x.is_object_exp() else str(x) for x in fe.args)
     keyQ = lambda fe: (fe.fluent().name,) + tuple(x.object().name if x.is_object_exp() else str(x) for x in fe.args)
     gas = ground_actions(P)
-    try:
-        frontier = [(sp.sim.get_initial_state(), sq.sim.get_initial_state(), [])]
-    except Exception as e:
-        return None
+    inits = []
+    for side in (sp, sq):
+        try:
+            inits.append(side.sim.get_initial_state())
+        except Exception as e:      # e.g. the initial state violates a state invariant / a bounded type
+            inits.append(("err", type(e).__name__))
+    if isinstance(inits[0], tuple) or isinstance(inits[1], tuple):
+        if isinstance(inits[0], tuple) and isinstance(inits[1], tuple):
+            return None
+        return (f"only one of the two problems has an initial state the simulator accepts: "
+                f"{inits[0] if isinstance(inits[0], tuple) else 'ok'} vs {inits[1] if isinstance(inits[1], tuple) else 'ok'}")
+    frontier = [(inits[0], inits[1], [])]
     for d in range(depth + 1):
         nxt = []
         for stp, stq, path in frontier:
@@ -1126,6 +1529,9 @@ def bisim_diff(P, Q, ren, depth, width=5):
                 qa = Q.action(qn) if Q.has_action(qn) else None
                 np_ = sp.step(stp, a, combo)
                 nq = sq.step(stq, qa, q_args(Q, combo, ren))
+                if (np_ == ("refused-arguments",)) != (nq == ("refused-arguments",)):
+                    return (f"the arguments {[str(o) for o in combo]} of {a.name} are accepted by only one of the two problems "
+                            f"(original: {np_ != ('refused-arguments',)}, re-read: {nq != ('refused-arguments',)})")
                 if isinstance(np_, tuple) or isinstance(nq, tuple):
                     continue    # the simulator itself failed (C01/C02's business): inconclusive for this action
                 if (np_ is None) != (nq is None):
@@ -1155,9 +1561,7 @@ def tt_verdict(P, plan):
 def temporal_diff(P, Q, ren, rng, n_plans):
     """same verdict of the real TimeTriggeredPlanValidator on small enumerated plans"""
     from unified_planning.plans import ActionInstance, TimeTriggeredPlan
-    gas = ground_actions(P, cap=12)
-    if not gas:
-        gas = []
+    gas = ground_actions(P, cap=12, outside=False)
     cands = []
     durs = [Fraction(1, 2), Fraction(1), Fraction(2), Fraction(5, 2), Fraction(3), Fraction(4), Fraction(9, 2), Fraction(5), Fraction(11)]
     starts = [Fraction(0), Fraction(1), Fraction(3), Fraction(6)]
@@ -1241,6 +1645,16 @@ def shrink(payload):
     for k in ("actions", "goals", "timed-effects", "timed-goals", "invariants", "init", "defaults"):
         for i in range(len(secs[k])):
             yield mk(**{k: secs[k][:i] + secs[k][i + 1:]})
+    keep = used_fluents(ps)
+    for f in secs["fluents"]:      # a fluent nothing mentions, with its initial values
+        n = f[0][0]
+        if n not in keep and len(secs["fluents"]) > 1:      # (the problem without any declaration is a corpus case of its own)
+            yield mk(fluents=[g for g in secs["fluents"] if g[0][0] != n], defaults=[d for d in secs["defaults"] if d[0] != n],
+                     init=[i for i in secs["init"] if i[0][1][0] != n])
+    for i, a in enumerate(secs["actions"]):      # a parameter nothing mentions
+        for j, (pn, pt) in enumerate(a[2]):
+            if sexp.dumps(["p", pn, pt]) not in sexp.dumps(a[3:]):
+                yield mk(actions=secs["actions"][:i] + [a[:2] + [a[2][:j] + a[2][j + 1:]] + a[3:]] + secs["actions"][i + 1:])
     for i, a in enumerate(secs["actions"]):
         if a[0] == "inst":
             for j in range(1, len(a[3])):
@@ -1264,7 +1678,11 @@ MANIFEST = {
                    "timings, timed effects and goals, state invariants) and EVERY renaming that gives different items different names "
                    "(C38), that reading the printed tokens succeeds and returns the renamed problem re-spelt with binary operators and "
                    "unsigned literals; `respell_den` proves that this re-spelling has the same reference denotation under every "
-                   "interpretation; `static_preserved` that constant/fluent declarations are kept; the parser fuel (number of tokens "
+                   "interpretation; `static_preserved` that constant/fluent declarations are kept; Props/C19Types.lean spells out the "
+                   "declared types: `int_type_roundtrip` / `real_type_roundtrip` (a numeric type is read back with exactly its two "
+                   "bounds, for EVERY value of a bound incl. 0, negative, equal, one-sided, fractional), `fluent_types_preserved` and "
+                   "`action_params_preserved` (the re-read problem has exactly the renamed fluents, with value and parameter types, "
+                   "and every action its renamed parameter list); the parser fuel (number of tokens "
                    "+ 1) is proved sufficient. The models are tied to the code by a differential correspondence (the real writer's "
                    "tokens; the real reader's result on the same text) and the property itself (types, objects, fluents, initial "
                    "state, bisimulation with the real simulator / verdicts of the real time-triggered validator) is evaluated on "
